@@ -183,6 +183,9 @@ func GenSelect(t *rapid.T, kind StoreKind, pairs []Pair, o SelOpts) *Stmt {
 				}
 			}
 		}
+		if o.Aliases && !st.Star && rapid.IntRange(0, 7).Draw(t, "nameChain") == 0 {
+			genNameChain(t, c, st)
+		}
 		st.Where = c.GenWhere(t, rapid.IntRange(0, 3).Draw(t, "whereDepth"))
 	}
 	if o.Order && rapid.IntRange(0, 2).Draw(t, "ordered") == 0 {
@@ -193,6 +196,36 @@ func GenSelect(t *rapid.T, kind StoreKind, pairs []Pair, o SelOpts) *Stmt {
 	}
 	genSemis(t, st)
 	return st
+}
+
+// genNameChain adds fields that are only names (n as z1, z1 as z2, ..), each
+// at a random place of the select list: in front of or behind the field it
+// names. The order of the list does not change what a name stands for.
+func genNameChain(t *rapid.T, c *GenCtx, st *Stmt) {
+	var bases []SelField
+	seen := map[string]bool{}
+	for _, f := range st.Fields {
+		if f.Alias != "" && !seen[f.Alias] {
+			bases = append(bases, f)
+		}
+		seen[f.Alias] = true
+	}
+	if len(bases) == 0 {
+		return
+	}
+	base := rapid.SampledFrom(bases).Draw(t, "chainBase")
+	prev := base.Alias
+	k := rapid.IntRange(2, 4).Draw(t, "chainLen")
+	for i := 1; i <= k; i++ {
+		name := fmt.Sprintf("z%d", i)
+		f := SelField{E: Ref(prev, base.E.T), Alias: name}
+		pos := rapid.IntRange(0, len(st.Fields)).Draw(t, "chainPos")
+		st.Fields = append(st.Fields, SelField{})
+		copy(st.Fields[pos+1:], st.Fields[pos:])
+		st.Fields[pos] = f
+		c.addAlias(name, f.E)
+		prev = name
+	}
 }
 
 // genSemis: now and then the statement ends in one or two semicolons.
@@ -454,6 +487,9 @@ func genAggrExpr(t *rapid.T, c *GenCtx) *Node {
 		// a Boolean aggregate field; Boolean simplification with a constant
 		// side must leave it an aggregate field (one row per group)
 		cmp := Bin(rapid.SampledFrom([]string{">", "<=", "="}).Draw(t, "aggrCmp"), a, Int(int64(rapid.IntRange(0, 3).Draw(t, "aggrCmpLit"))))
+		if rapid.IntRange(0, 2).Draw(t, "aggrNot") == 0 {
+			cmp = Not(cmp) // the aggregate sits under a !
+		}
 		switch rapid.IntRange(0, 4).Draw(t, "aggrBool") {
 		case 0:
 			return Bin("|", cmp, Bin("=", Int(1), Int(1)))
